@@ -1242,6 +1242,10 @@ func (sa *Application) tryPlaceholderAllocate(nodeIterator func() NodeIterator, 
 			if ph.IsReleased() || ph.IsPreempted() || request.GetTaskGroup() != ph.GetTaskGroup() {
 				continue
 			}
+			// a request that must run on a specific node can only take the place of a placeholder on that node
+			if requiredNode := request.GetRequiredNode(); requiredNode != "" && requiredNode != ph.GetNodeID() {
+				continue
+			}
 			// before we check anything we need to check the resources equality
 			delta := resources.Sub(ph.GetAllocatedResource(), request.GetAllocatedResource())
 			// Any negative value in the delta means that at least one of the requested resource in the real
@@ -1327,6 +1331,10 @@ func (sa *Application) tryPlaceholderAllocate(nodeIterator func() NodeIterator, 
 			// the node the placeholder runs on was tried for the in place swap already: adding the real allocation
 			// next to the placeholder would be confirmed as an in place swap and leave the node usage too high
 			if node.NodeID == phFit.GetNodeID() {
+				return true
+			}
+			// never move a request that must run on a specific node to another node
+			if requiredNode := reqFit.GetRequiredNode(); requiredNode != "" && requiredNode != node.NodeID {
 				return true
 			}
 			if !node.IsSchedulable() {
